@@ -279,6 +279,9 @@ func listL1(mode int) {
 	s1, s2 := sp.build(), sp.build()
 	vf.Assert(listInv(s1), "A.2 holds on the constructed pre-state")
 	a.apply(s1)
+	// the first replica is read between the two operations, the second is not: reading
+	// (ToJSON, Get, Size walk the live elements) must not influence what follows
+	_ = s1.ToJSON()
 	if mode&(modeC02|modeC04) != 0 {
 		checkInsertPlacement(s1, a)
 	}
@@ -309,6 +312,7 @@ func listL1(mode int) {
 	if mode&modeC04 != 0 {
 		vf.Assert(orderStable(sp, s1) && orderStable(sp, s2), "C04 order stable after both")
 		vf.Assert(sameOrder(s1, s2), "C04 any two elements appear in the same relative order on both replicas")
+		vf.Assert(jsonEqList(s1, s2), "C04 every live element is readable, once, on both replicas")
 	}
 	checkListOutcome(sp, s1, a, b, mode)
 	checkListOutcome(sp, s2, a, b, mode)
